@@ -134,6 +134,14 @@ func genC18(tier string, seed uint64, n int, e *Emitter) {
 			NT:    nt,
 		})
 	}
+	// (3) field errors of generated requests: every error path addresses a null in data (C18 paths)
+	defer func() {
+		k := n / 6
+		if k < 60 {
+			k = 60
+		}
+		xGenPropWrap("C18", 18, tier, seed, k, e, func(x string) string { return "ExecCase (" + x + ")" })
+	}()
 	// (2) errors reported by Do for an offending token / node at a known byte offset
 	m := n / 2
 	for i := 0; i < m; i++ {
